@@ -69,8 +69,22 @@ def run(ctx):
     for pw, ch in cases[:13] + cases[13:13 + ctx.n(30, 300)]:
         if not pw.isascii():
             continue
-        for kind, ver in (("lib", b"RFB 003.008\n"), ("cli", b"RFB 003.007\n"), ("base", b"RFB 003.008\n"), ("lib", b"RFB 003.003\n")):
-            cl, tr, _ = rfbgen.new_client(kind, password=pw)
+        for kind, ver in (("lib", b"RFB 003.008\n"), ("cli", b"RFB 003.007\n"), ("base", b"RFB 003.008\n"), ("lib", b"RFB 003.003\n"), ("api", b"RFB 003.008\n")):
+            if kind == "api":
+                # the password as handed to vncdotool.api.connect (reactor replaced by a recorder)
+                from vncdotool import api
+
+                class _Rx:
+                    running = True
+                    callWhenRunning = callFromThread = staticmethod(lambda f, *a, **k: None)
+                with mock.patch.object(api, "reactor", _Rx()):
+                    proxy = api.connect("h", password=pw)
+                cl = proxy.factory.buildProtocol(None)
+                tr = []
+                cl.transport = rfbgen.FakeTransport(tr)
+                cl.connectionMade()
+            else:
+                cl, tr, _ = rfbgen.new_client(kind, password=pw)
             if ver == b"RFB 003.003\n":
                 parts = [ver, struct.pack("!I", 2) + ch]
             else:
@@ -93,6 +107,9 @@ def run(ctx):
     for _ in range(ctx.n(120, 1500)):
         L = r.choice([1, 2, 8, 16, 128])
         m = r.getrandbits(8 * L) | 1
+        if L >= 2 and r.random() < .25:
+            m = r.getrandbits(8 * (L - r.randint(1, L - 1))) | 1      # a modulus VALUE shorter than the key length: leading zero bytes on the wire
+            ctx.count("ard_modulus_with_leading_zero_bytes")
         if m < 3:
             m = 251 if L == 1 else (1 << (8 * L - 1)) + 1
         g = r.choice([2, 3, 5, 7])
